@@ -943,8 +943,12 @@ class Oracle:
         if fee_self:
             self.self_sent = True      # for the rest of the history, like a request sent by the contract itself
         clean = self.tainted is None and not self.migration and not self.seeded and not self.self_sent
+        # the ledger oracle (C01) stops after its first failure, because every later step would repeat it; the oracles that
+        # judge one request's payouts on the state before it (C06 exits, C02 / C04 recipients) go on: what an earlier step
+        # left wrong in the book does not excuse what the next request pays out
+        clean_flows = (self.tainted in (None, "C01")) and not self.migration and not self.seeded and not self.self_sent
         # ---- C06: exit probes
-        if k == "PEXEC" and ev.sub in ("cancel_ask", "cancel_bid", "expire_ask", "expire_bid") and clean:
+        if k == "PEXEC" and ev.sub in ("cancel_ask", "cancel_bid", "expire_ask", "expire_bid") and clean_flows:
             ai, bi = ev.ids()
             o = self.asks.get(ai[0]) if ai else self.bids.get(bi[0]) if bi else None
             entitled = (isinstance(o, (fmt.Ask, fmt.Bid)) and not ev.funds and self.cfg is not None and
@@ -1055,7 +1059,7 @@ class Oracle:
                     except Exception:
                         pass
         # ---- C02 / C04: who receives what (exact rationals; states reached without seeds or known-class steps)
-        if b.ok and k in ("EXEC", "PEXEC") and self.cfg is not None and clean:
+        if b.ok and k in ("EXEC", "PEXEC") and self.cfg is not None and clean_flows:
             fl = dict(flows(b, ev))
             ai, bi = ev.ids()
             try:
